@@ -77,6 +77,46 @@ Theorem C24_dict_reject_unknown_blames : forall V (kws : list (key * V)) names f
 Proof. exact reject_unknown_blames. Qed.
 Print Assumptions C24_dict_reject_unknown_blames.
 
+(* the pop loop of __Pyx_ParseKeywordDictToDict, characterised: every name equal to some key gets that
+   key's value; exactly those keys leave the dict and the order of the rest is kept *)
+Theorem C24_dict_pop_loop : forall V ns idx off (values : list (option V)) d,
+  NoDup ns -> keys_nodup d = true ->
+  let '(values', d') := dict_pop_all ns idx off values d in
+  length values' = length values /\
+  (forall a, nth a values' None =
+     if (off + idx <=? a) && (a <? off + idx + length ns) && (a <? length values)
+     then match dict_get (nth (a - off - idx) ns 0) d with Some v => Some v | None => nth a values None end
+     else nth a values None) /\
+  d' = filter (fun kv => negb (existsb (key_eq (fst kv)) ns)) d.
+Proof. exact dict_pop_all_spec. Qed.
+Print Assumptions C24_dict_pop_loop.
+
+(* __Pyx_ParseKeywordDictToDict (kwds dict convention, wrapper with **kwargs) agrees with the reference loop *)
+Theorem C24_dict_to_dict_loop : forall V (kws : list (key * V)) names first off ignore values,
+  NoDup names -> all_str kws -> keys_nodup kws = true -> first <= length names ->
+  sim (parse_keywords PDict kws names first off ignore values (Some []))
+      (parse_ref kws names first off ignore values (Some [])).
+Proof. exact parser_ok_dict2dict. Qed.
+Print Assumptions C24_dict_to_dict_loop.
+
+(* hence the FULL statement, with no obligation left, for every signature whose body uses its **kwargs:
+   all four calling conventions including a kwds dict.  What remains conditional (parser_ok) is only
+   __Pyx_ParseKeywordDict, the kwds-dict loop of wrappers WITHOUT a used **kwargs. *)
+Theorem C24_bind_eq_starstar : forall V vc pth s (c : call V),
+  wf_sig s = true -> wf_path pth s = true -> wf_entry vc pth = true -> keys_nodup (c_kws c) = true ->
+  s_starstar s && s_kwused s = true ->
+  erase s (call_cy vc pth s c) = erase s (call_py s c).
+Proof. exact call_eq_starstar. Qed.
+Print Assumptions C24_bind_eq_starstar.
+
+Example C24_starstar_nonvacuous :
+  let s := mkSig [] [mkParam 1 false; mkParam 2 true] false [mkParam 3 true] true true in
+  let c := mkCall [10] [(mkKey 3 KEqual, 20); (mkKey 9 KSub, 21); (mkKey 2 KInterned, 22)] in
+  wf_sig s = true /\ wf_path PDict s = true /\ wf_entry false PDict = true /\ keys_nodup (c_kws c) = true /\
+  s_starstar s && s_kwused s = true /\
+  call_cy false PDict s c = Bound [(1, Given 10); (2, Given 22); (3, Given 20)] None (Some [(mkKey 9 KSub, 21)]).
+Proof. vm_compute. repeat split. Qed.
+
 Example C24_nonvacuous :
   let s := mkSig [mkParam 1 false] [mkParam 2 false; mkParam 3 true] true [mkParam 4 true; mkParam 5 false] true true in
   let c := mkCall [10; 11] [(mkKey 5 KSub, 20); (mkKey 9 KEqual, 21); (mkKey 3 KInterned, 22)] in
